@@ -1191,5 +1191,26 @@ theorem hullComparators_eq_source :
     (∀ (rnd : Rat → Rat) (head q r : Pt), (Gen.grahamCmp (dist2r rnd) head q r != .gt) = grahamLe rnd head q r) :=
   ⟨Geo.Proofs.TRAN2Hull.lexCmp_lt, Geo.Proofs.TRAN2Hull.grahamCmp_le⟩
 
-end Geo.Proofs.C08
+/-- [E2] (translator tie) `utils::least_index` (the lexicographic-minimum selection: `enumerate().min_by(lex_cmp)`, the FIRST
+minimum, its index) of the model is the term regenerated from utils.rs on every run. -/
+theorem leastIndex_eq_source (pts : List Pt) : Gen.leastIndex pts = leastIndex pts :=
+  Geo.Proofs.TRAN2Hull.leastIndex_eq pts
 
+/-- [E2] (translator tie) the body of `for pt in points.iter()` of `graham_hull` — the `while output.len() > 1` loop that pops
+while the two top points and `pt` do not make a left turn (`break` on counter-clockwise, pop on clockwise, on collinear
+`break` iff `include_on_hull`), followed by the push unless `pt` repeats the top — is, in the model, the term regenerated
+from graham.rs on every run (`Gen.grahamLoopBody`, on the Vec = the reversed stack): it answers `some` (the iteration bound
+`output.len()` the job claims for the `while` always suffices) and the value is `grahamStep`. A changed loop condition, arm,
+`break` / `pop` or push condition changes the regenerated definition and this theorem stops checking.
+Hypothesis: the stack is not empty (in `graham_hull` it always holds the head point; on an empty Vec `last().unwrap()`
+panics, which the model does not mirror). Full statement without it: false for `st = []`, `pt = (0, 0)`, `incl = false`
+(`Gen.unwrap none` is the default point). -/
+theorem grahamLoopBody_eq_source_partial (incl : Bool) (st : List Pt) (pt : Pt) (hne : st ≠ []) :
+    Gen.grahamLoopBody incl st.reverse pt = some ((grahamStep incl st pt).reverse) :=
+  Geo.Proofs.TRAN2Hull.grahamLoopBody_eq incl st pt hne
+
+example : Gen.grahamLoopBody false ([⟨2, 1⟩, ⟨2, 0⟩, ⟨0, 0⟩] : List Pt).reverse ⟨1, 3⟩
+    = some ((grahamStep false [⟨2, 1⟩, ⟨2, 0⟩, ⟨0, 0⟩] ⟨1, 3⟩).reverse) :=
+  grahamLoopBody_eq_source_partial _ _ _ (by simp)
+
+end Geo.Proofs.C08
